@@ -5,7 +5,8 @@ from core import num_canon, alarm, Timeout
 ID = "C02"
 LEAN_MODULES = ["KaVerif.Props.C02"]
 GEN = []
-THEOREMS = ["KaVerif.C02_roundtrip", "KaVerif.C02_min_eq_full", "KaVerif.C02_assign_vs_compare", "KaVerif.C02_kwarg"]
+THEOREMS = ["KaVerif.C02_roundtrip", "KaVerif.C02_redundant_parens", "KaVerif.C02_min_eq_full",
+            "KaVerif.C02_assign_vs_compare", "KaVerif.C02_kwarg"]
 RULE = ("random program trees (every operator at every operand position: + - ± * / % ^ .. sign ! comparisons(1-2) to "
         "units calls(kwargs) arrays comprehensions intervals strings instants assignment ;), depth<=6 quick / <=9 thorough, "
         "each rendered with minimal / full / random-redundant parentheses (and with backward comparison operators) and random "
@@ -704,13 +705,15 @@ def spell_tok(t):
 
 LEVEL_TEXT = ("Machine-checked proof (Lean 4) over an executable model of Ka's recursive-descent parser (src/ka/parse.py, "
               "function by function) and of a printer: for every well-formed program tree (all node kinds; induction on tree "
-              "size, unbounded) the text with only the parentheses the precedence/associativity rules require and the "
-              "fully parenthesised text both parse back to exactly that tree. The hand-written parser model is tied to the code "
+              "size, unbounded) the text with only the parentheses the precedence/associativity rules require, the fully "
+              "parenthesised text, and every text in between that parenthesises a chosen set of sub-expressions all parse back "
+              "to exactly that tree. The hand-written parser model is tied to the code "
               "by a differential correspondence on real token lists (tree dumps and error indices), the model's printers are "
               "checked to print exactly the texts the harness feeds the real parser, and an oracle on the real code compares "
               "minimal / full / redundant parenthesisations (trees and values).")
 LEVEL_NOTE = ("Theorems are about the model (Model/Parser.lean, Model/Render.lean); the model agrees with parse.py on the "
-              "generated token lists only. Parentheses: proved for the minimal and the full parenthesisation; arbitrary "
-              "redundant parenthesisations in between are covered by the oracle/correspondence only. Whitespace insensitivity of lexing is C11; evaluation equality "
+              "generated token lists only. Redundant parentheses: proved for parentheses around all occurrences of any chosen set of "
+              "sub-expressions (minimal = none, full = all); per-occurrence choices and doubled parentheses are covered by "
+              "the oracle/correspondence only. Whitespace insensitivity of lexing is C11; evaluation equality "
               "follows from tree equality and is additionally observed on closed arithmetic trees.")
 TECHNIQUE = "Lean 4 printer/parser round-trip proof by induction over trees + differential correspondence + parenthesisation oracle"
